@@ -197,7 +197,7 @@ Definition row_xs2 (r : arow) (env : actenv) : Q := (r_xs_par r + epi_factor env
 Definition row_flux (r : arow) (env : actenv) : Q :=
   if r_fast r then (fluence env / fast_ratio env)%Q else fluence env.
 
-Definition activity_row (r : arow) (amass : Z) (mass : Q) (env : actenv) (exposure : Q) : outcome :=
+Definition activity_row_with (small_branch : bool) (r : arow) (amass : Z) (mass : Q) (env : actenv) (exposure : Q) : outcome :=
   if (r_fast r && Qeq_bool (fast_ratio env) 0)%bool then OSkip else
   let initialXS := row_xs r env in
   let flux := row_flux r env in
@@ -230,7 +230,7 @@ Definition activity_row (r : arow) (amass : Z) (mass : Q) (env : actenv) (exposu
       else lin_ln2_neg (- (kb * t) - SMALL)%Q (- (t / r_thalf r))%Q in
     let usmall := Qlt_bool (Qabs U) SMALL in
     let spec := act_spec (c (KUCI * mass / inject_Z amass)%Q) lam (c k1) (c kb) (c t) in
-    match (if usmall then vsmall else Some false) with
+    match (if (small_branch && usmall)%bool then vsmall else Some false) with
     | None => OUndecided
     | Some true =>
         (* activity < 0 raises; the message formats the isotope with %g, which is a TypeError.
@@ -246,6 +246,9 @@ Definition activity_row (r : arow) (amass : Z) (mass : Q) (env : actenv) (exposu
     | Some false =>
         OAct BMain (main_code (c root) lam (c k1) (c kb) (c t)) (main_scale (c root) lam (c k1) (c kb) (c t)) lam spec
     end.
+
+(* the code as it stands: with the small-argument branch iff the source still has it (Gen flag) *)
+Definition activity_row := activity_row_with act_small_branch.
 
 (* result[ai] = [activity*exp(-lam*Ti) for Ti in rest_times] *)
 Definition rest_model (a lam : expr) (ti : Q) : expr := a *: eexp_neg (lam *: c ti).
